@@ -8,8 +8,8 @@ import Model.EvalSoftFloat
 
     Dynamic values (`any`) are `Val`: a number (its bit pattern in the evaluator's format), a Go bool, or a string.
     OUTSIDE the model (`VR.outside`, the check takes those values from the implementation): the operator `^`
-    (`math.Pow`), the functions sqrt cbrt exp exp2 log log10 log1p, hexadecimal / `_`-separated literals, and the
-    `%v` text of a NUMBER (needed only when a number meets a non-number in `== != < <= > >= +`). -/
+    (`math.Pow`), the functions sqrt cbrt exp exp2 log log10 log1p, hexadecimal / `_`-separated literals.  The `%v`
+    text of a NUMBER (needed when a number meets a non-number in `== != < <= > >= +`) is `SoftFloat.fmtG`. -/
 namespace EvalFloat
 open Eval SoftFloat
 
@@ -37,12 +37,12 @@ deriving DecidableEq, Repr
 def TRUE : Eval.Bytes := [116, 114, 117, 101]
 def FALSE : Eval.Bytes := [102, 97, 108, 115, 101]
 
-/-- `fmt.Sprintf("%v", v)`: a string as it is, a bool as true/false; the shortest-decimal text of a number is not
-    modelled (`none`) -/
-def fmtV : Val → Option Eval.Bytes
+/-- `fmt.Sprintf("%v", v)`: a string as it is, a bool as true/false, a number as its shortest `%g` text
+    (`SoftFloat.fmtG`; `none` = outside the model: an exact tie between two shortest candidates) -/
+def fmtV (c : Cfg) : Val → Option Eval.Bytes
   | .str s => some s
   | .bool b => some (if b then TRUE else FALSE)
-  | .num _ => none
+  | .num x => fmtG c.fmt x
 
 /-- Go's `<` on strings: byte-wise lexicographic -/
 def strLt : Eval.Bytes → Eval.Bytes → Bool
@@ -106,9 +106,9 @@ def opAnd (c : Cfg) (l r : Val) : VR Val :=
       | .outside => .outside
       | .ok y => .ok (.bool (nonZero c y))
 
-/-- the `%v` texts of both operands, when neither is a number -/
-def onTexts (txt : Eval.Bytes → Eval.Bytes → Val) (l r : Val) : VR Val :=
-  match fmtV l, fmtV r with
+/-- the comparison / concatenation of the `%v` texts of both operands -/
+def onTexts (c : Cfg) (txt : Eval.Bytes → Eval.Bytes → Val) (l r : Val) : VR Val :=
+  match fmtV c l, fmtV c r with
   | some a, some b => .ok (txt a b)
   | _, _ => .outside
 
@@ -118,12 +118,12 @@ def withFallback (c : Cfg) (num : Nat → Nat → Val) (txt : Eval.Bytes → Eva
   match floatFrom c l with
   | .panic => .panic
   | .outside => .outside
-  | .err => onTexts txt l r
+  | .err => onTexts c txt l r
   | .ok x =>
     match floatFrom c r with
     | .panic => .panic
     | .outside => .outside
-    | .err => onTexts txt l r
+    | .err => onTexts c txt l r
     | .ok y => .ok (num x y)
 
 def opEq (c : Cfg) := withFallback c (fun x y => .bool (eq c.fmt x y)) (fun a b => .bool (a == b))
